@@ -25,7 +25,7 @@ pub fn generate(rng: &mut Rng, tier: Tier, stats: &mut GenStats) -> Scenario {
         let (mut expr, mut rooted) = ("**".to_string(), false);
         for _ in 0..6 {
             let (e, r) = g.walk_glob(&model, &base, if model.is_dir_node(&base) { 2 } else { 0 }, true, &mut stats.rejections);
-            if !prefix_touches_link(&model, &base, &e, r) {
+            if link == Link::ReadTarget || !prefix_touches_link(&model, &base, &e, r) {
                 expr = e;
                 rooted = r;
                 break;
@@ -52,7 +52,12 @@ pub fn generate(rng: &mut Rng, tier: Tier, stats: &mut GenStats) -> Scenario {
                 let other = g.pick_dir(&model, 20);
                 let src = walkers[0].source.clone();
                 if let Source::Glob { expr, rooted } = &src {
-                    if !prefix_touches_link(&model, &other, expr, *rooted) {
+                    // never leave the world: as many `..` as the other base is deep, at most
+                    let ups = expr.split('/').take_while(|c| *c == "..").count();
+                    if ups <= depth_of(&other)
+                        && model.is_dir_node(&other)
+                        && (walkers[1].link == Link::ReadTarget || !prefix_touches_link(&model, &other, expr, *rooted))
+                    {
                         walkers[1].source = src.clone();
                         walkers[1].base = other;
                     }
@@ -61,7 +66,7 @@ pub fn generate(rng: &mut Rng, tier: Tier, stats: &mut GenStats) -> Scenario {
             2 => {
                 let b = walkers[0].base.clone();
                 if let Source::Glob { expr, rooted } = &walkers[1].source.clone() {
-                    if !prefix_touches_link(&model, &b, expr, *rooted) && !expr.starts_with("..") {
+                    if (walkers[1].link == Link::ReadTarget || !prefix_touches_link(&model, &b, expr, *rooted)) && !expr.starts_with("..") {
                         walkers[1].base = b;
                     }
                 }
